@@ -276,3 +276,47 @@ def replay_plugin_order(inputs):
 
 
 CONTRACTS += [GetPluginsTypes()] + STUBS
+
+
+# ------------------------------------------------------------------------------------------ hook application, natively
+def bounded_hook_order(tier, seed):
+    """`several plugins are applied to each hook in configuration order` and `a plugin overriding no hook changes no byte`,
+    natively on the real PluginManager with throw-away plugins whose hooks RETURN NEW OBJECTS (the bundled plugins mutate
+    in place and would hide a manager that forgets to thread the result through)"""
+    import graphql as G
+    schema = G.build_schema("type Query { a: Int }")
+    str_hooks = ["generate_client_code", "generate_enums_code", "generate_inputs_code", "generate_result_types_code", "copy_code",
+                 "generate_init_code", "process_name"]
+
+    def stamp(tag):
+        ns = {}
+        for h in str_hooks:
+            ns[h] = (lambda t: lambda self, s, *a, **k: s + t)(f"<{tag}:{h}>")
+        ns["generate_operation_str"] = lambda self, s, *a, **k: s + f"<{tag}:op>"
+        ns["generate_init_module"] = lambda self, m: ast.Module(body=list(m.body) + [ast.Expr(value=ast.Constant(value=tag))], type_ignores=[])
+        return type("Stamp" + tag, (PB.Plugin,), ns)
+    A, B, C = stamp("A"), stamp("B"), stamp("C")
+    Identity = type("Identity", (PB.Plugin,), {})
+    cases, fails = 0, []
+    for order in ([A], [A, Identity], [Identity, A], [A, B], [B, A], [A, Identity, B, C], [Identity, Identity], []):
+        m = PM.PluginManager(schema=schema, plugins_types=order)
+        tags = [c.__name__[5:] for c in order if c is not Identity]
+        for h in str_hooks + ["generate_operation_str"]:
+            cases += 1
+            try:
+                got = getattr(m, h)("x") if h != "generate_operation_str" else m.generate_operation_str("x", operation_definition=None)
+            except Exception as e:      # noqa
+                got = f"raises {type(e).__name__}: {e}"
+            want = "x" + "".join(f"<{t}:{'op' if h == 'generate_operation_str' else h}>" for t in tags)
+            if got != want:
+                fails.append(dict(inputs=dict(scenario=f"{'+'.join(c.__name__ for c in order) or 'none'}:{h}"), outcome=got,
+                                  failed=["hooks-applied-in-configuration-order/each-on-the-result-of-the-previous"]))
+        cases += 1
+        mod = m.generate_init_module(ast.Module(body=[], type_ignores=[]))
+        got = [st.value.value for st in mod.body]
+        if got != tags:
+            fails.append(dict(inputs=dict(scenario=f"{'+'.join(c.__name__ for c in order) or 'none'}:generate_init_module"), outcome=got,
+                              failed=["hooks-applied-in-configuration-order/each-on-the-result-of-the-previous"]))
+    return dict(function="ariadne_codegen.plugins.manager:PluginManager._apply_plugins_on_object", name="bounded.hook-order",
+                kind="bounded stand-in (native)", domain="8 plugin lists (stamping plugins returning new objects, identity plugins) x 8 string hooks + 1 AST hook",
+                cases=cases, failed=len(fails), failures=fails[:10])
